@@ -269,6 +269,73 @@ pub fn run(tier: &str, seed: u64, out: &str) {
         tot.lost += o.lost;
         tot.exact += o.exact;
     }
+    // ---- mate threats at the frontier: the retrograde classes of C08 (a mate in one by every
+    // kind of mating move, with and without a capturable distractor) as search roots at the depth
+    // that puts the mating move at a frontier node: the mate-in-one positions at depth 1, their
+    // black predecessors (black can step into the mate) at depth 2. Pruning keyed on the static
+    // evaluation (futility, razoring, delta) typically goes wrong exactly there.
+    if !rep.saturated() && rep.elapsed() <= wall_cap {
+        use crate::props::c08retro::{generate, RetroOptions};
+        use crate::refchess::Kind::*;
+        let region: Vec<u8> = vec![56, 57, 58, 59];
+        let cap_q = [None, Some(Q)];
+        let sets: Vec<Vec<crate::refchess::Kind>> = if thorough { vec![vec![P, Q], vec![P, R], vec![P, N], vec![P, B], vec![P, P], vec![N, N], vec![B, N], vec![R, N]] } else { vec![vec![P, Q], vec![P, N], vec![P, P], vec![N, N]] };
+        let mut jobs: Vec<(Board, u8, bool)> = Vec::new();
+        let mut n_attack = 0u64;
+        let mut n_defence = 0u64;
+        for mat in &sets {
+            let o = RetroOptions { material: mat, region: &region, captured: &cap_q, keep_plain_heavy_moves: false, keep_heavy_promotions: mat[0] != P || mat[1] != Q && mat[1] != R, distractors: &[Q], defence: true, defence_from_distracted: false };
+            let cls = generate(&o);
+            for (list, depths, counter) in [(&cls.attack, if thorough { vec![1u8, 2, 3] } else { vec![1u8] }, &mut n_attack), (&cls.defence, if thorough { vec![2u8, 3] } else { vec![2u8] }, &mut n_defence)] {
+                for p in list.iter() {
+                    let variants: Vec<Pos> = if thorough { vec![p.clone(), p.mirror()] } else { vec![p.clone()] };
+                    for q in variants {
+                        if let Ok(b) = eng::board_of(&q) {
+                            *counter += 1;
+                            for k in &depths {
+                                jobs.push((b, *k, false));
+                            }
+                        }
+                    }
+                }
+            }
+        }
+        let results: Vec<(bool, Option<Class>, u64)> = par_map(&jobs, |(b, k, fixed)| check_one(&cache, &mg, &rep, b, *k, *fixed));
+        let mut o = Outcome { searched: 0, skipped_excluded: 0, skipped_deeper_reuse: 0, won: 0, lost: 0, exact: 0 };
+        for (ok, class, deeper) in &results {
+            o.searched += 1;
+            if *deeper > 0 {
+                o.skipped_deeper_reuse += 1;
+            } else if *ok && class.is_none() {
+                o.skipped_excluded += 1;
+            }
+            match class {
+                Some(Class::Won) => o.won += 1,
+                Some(Class::Lost) => o.lost += 1,
+                Some(Class::Exact(_)) => o.exact += 1,
+                None => {}
+            }
+        }
+        eprintln!("[C05] retrograde mate-threat roots: {} mate-in-one positions, {} black predecessors, {} searches, exact {} won {} lost {} ({:.1}s)", n_attack, n_defence, o.searched, o.exact, o.won, o.lost, rep.elapsed());
+        per_root.push(
+            J::obj()
+                .set("name", "retrograde mate-threat roots (see C08: every mating move type, with/without a distractor; mated king on a8..d8)")
+                .set("materials", sets.iter().map(|m| format!("K+{:?} v k", m)).collect::<Vec<_>>())
+                .set("mate_in_one_positions", n_attack)
+                .set("black_predecessors", n_defence)
+                .set("depths", if thorough { "mate-in-one positions 1..3, predecessors 2..3, both colours" } else { "mate-in-one positions 1, predecessors 2" })
+                .set("searches", o.searched)
+                .set("compared_exact", o.exact)
+                .set("compared_won", o.won)
+                .set("compared_lost", o.lost)
+                .set("skipped_quiescence_cap", o.skipped_excluded),
+        );
+        tot.searched += o.searched;
+        tot.skipped_excluded += o.skipped_excluded;
+        tot.won += o.won;
+        tot.lost += o.lost;
+        tot.exact += o.exact;
+    }
     let ref_states = cache.v_states.load(Ordering::Relaxed) + cache.q_calls.load(Ordering::Relaxed);
     let cov = J::obj()
         .set("states", ref_states)
